@@ -362,7 +362,214 @@ fn with_real(obs: &str, variant: &str) -> String {
   }
 }
 
+// ---------------------------------------------------------------------------------------------------------
+// `vfy`: the library's own verifiers (EdDSAJwsVerifier / EcDSAJwsVerifier) against their model (IdModel/Jose/Verifier.lean).
+// Request: `C01 vfy d=<ed|ec> alg=<name> kty=<okp|ec|rsa|oct> crv=<hex|~> x=<len|bad|~> y=<len|bad|~> sl=<n> P=<curves|~> S=<curves|~>
+//           K=<hex JWK json> G=<hex signature>`
+// kty … S are what the model reads (S: the curves whose signature scheme accepts (message, G) under the key's coordinates,
+// computed with the third-party crates directly); K and G are what the implementation gets.  `run` recomputes kty / crv / x /
+// y / sl from K and G and refuses a request whose abstract part does not describe them.
+const VFY_MSG: &[u8] = b"eyJhbGciOiJFZERTQSJ9.eyJpc3MiOiJkaWQ6ZXg6aTEifQ";
+
+fn vfy_b64dec(s: &str) -> Option<Vec<u8>> {
+  identity_jose::jwu::decode_b64(s).ok()
+}
+fn vfy_len(s: Option<&str>) -> String {
+  match s {
+    None => "~".into(),
+    Some(s) => vfy_b64dec(s).map(|b| b.len().to_string()).unwrap_or_else(|| "bad".into()),
+  }
+}
+/// (kty, crv, x, y) as the model reads them
+fn vfy_abstract(key_json: &str) -> Option<(String, String, String, String)> {
+  let v: serde_json::Value = serde_json::from_str(key_json).ok()?;
+  let kty = match v.get("kty")?.as_str()? {
+    "OKP" => "okp",
+    "EC" => "ec",
+    "RSA" => "rsa",
+    "oct" => "oct",
+    _ => return None,
+  };
+  let crv = v.get("crv").and_then(|c| c.as_str()).map(|c| crate::rng::hex(c.as_bytes())).unwrap_or_else(|| "~".into());
+  Some((kty.into(), crv, vfy_len(v.get("x").and_then(|c| c.as_str())), vfy_len(v.get("y").and_then(|c| c.as_str()))))
+}
+/// curves on which the key's coordinates are a public key, and curves whose scheme accepts (VFY_MSG, sig) under it
+fn vfy_facts(key_json: &str, sig: &[u8], ed_point: bool, ed_sig_ok: bool) -> (Vec<&'static str>, Vec<&'static str>) {
+  let v: serde_json::Value = serde_json::from_str(key_json).unwrap_or_default();
+  let x = v.get("x").and_then(|c| c.as_str()).and_then(vfy_b64dec);
+  let y = v.get("y").and_then(|c| c.as_str()).and_then(vfy_b64dec);
+  let (mut p, mut s) = (vec![], vec![]);
+  if ed_point {
+    p.push("Ed25519");
+  }
+  if ed_sig_ok {
+    s.push("Ed25519");
+  }
+  if let (Some(x), Some(y)) = (x, y) {
+    if x.len() == 32 && y.len() == 32 {
+      let mut sec1 = vec![4u8];
+      sec1.extend(&x);
+      sec1.extend(&y);
+      if let Ok(pk) = p256::PublicKey::from_sec1_bytes(&sec1) {
+        p.push("P-256");
+        use p256::ecdsa::signature::Verifier;
+        if let Ok(sg) = p256::ecdsa::Signature::from_slice(sig) {
+          if p256::ecdsa::VerifyingKey::from(pk).verify(VFY_MSG, &sg).is_ok() {
+            s.push("P-256");
+          }
+        }
+      }
+      if let Ok(pk) = k256::PublicKey::from_sec1_bytes(&sec1) {
+        p.push("secp256k1");
+        use k256::ecdsa::signature::Verifier;
+        if let Ok(sg) = k256::ecdsa::Signature::from_slice(sig) {
+          if k256::ecdsa::VerifyingKey::from(pk).verify(VFY_MSG, &sg).is_ok() {
+            s.push("secp256k1");
+          }
+        }
+      }
+    }
+  }
+  (p, s)
+}
+fn vfy_run(args: &[&str]) -> String {
+  use identity_core::convert::FromJson;
+  use identity_ecdsa_verifier::EcDSAJwsVerifier;
+  use identity_eddsa_verifier::EdDSAJwsVerifier;
+  use identity_jose::jws::{JwsAlgorithm, JwsVerifier, VerificationInput};
+  let get = |k: &str| args.iter().find_map(|a| a.strip_prefix(k).and_then(|r| r.strip_prefix('=')));
+  let (Some(d), Some(alg), Some(kty), Some(crv), Some(x), Some(y), Some(sl), Some(k), Some(g)) = (get("d"), get("alg"), get("kty"), get("crv"), get("x"), get("y"), get("sl"), get("K"), get("G")) else { return "bad-request".into() };
+  let (Some(kj), Some(sig)) = (unhex(k).and_then(|b| String::from_utf8(b).ok()), unhex(g)) else { return "bad-request".into() };
+  // the abstract part must describe K and G
+  match vfy_abstract(&kj) {
+    Some((k2, c2, x2, y2)) if k2 == kty && c2 == crv && x2 == x && y2 == y && sl == sig.len().to_string() => {}
+    _ => return "bad-request".into(),
+  }
+  let Ok(alg) = alg.parse::<JwsAlgorithm>() else { return "bad-request".into() };
+  let Ok(key) = Jwk::from_json(&kj) else { return "bad-request".into() };
+  let input = VerificationInput { alg, signing_input: VFY_MSG.to_vec().into(), decoded_signature: sig.into() };
+  let r = std::panic::catch_unwind(std::panic::AssertUnwindSafe(|| match d {
+    "ed" => EdDSAJwsVerifier::default().verify(input, &key).is_ok(),
+    _ => EcDSAJwsVerifier::default().verify(input, &key).is_ok(),
+  }));
+  match r {
+    Ok(true) => "ok".into(),
+    Ok(false) => "rejected".into(),
+    Err(_) => "panic\t#FAIL:verifier-panicked:the library's verifier panicked on this key / signature".into(),
+  }
+}
+fn vfy_gen(thorough: bool, out: &mut impl Write) {
+  use identity_core::convert::ToJson;
+  use identity_jose::jws::JwsAlgorithm;
+  let b64 = crate::jwtu::b64;
+  // real keys and signatures over VFY_MSG
+  let (ed_x, ed_x2, ed_sig) = {
+    use identity_storage::JwkStorage;
+    let rt = tokio::runtime::Builder::new_current_thread().build().unwrap();
+    let store = identity_storage::JwkMemStore::new();
+    let a = rt.block_on(store.generate(identity_storage::JwkMemStore::ED25519_KEY_TYPE, JwsAlgorithm::EdDSA)).unwrap();
+    let b = rt.block_on(store.generate(identity_storage::JwkMemStore::ED25519_KEY_TYPE, JwsAlgorithm::EdDSA)).unwrap();
+    let sg = rt.block_on(store.sign(&a.key_id, VFY_MSG, &a.jwk)).unwrap();
+    let _ = a.jwk.to_json();
+    (a.jwk.try_okp_params().unwrap().x.clone(), b.jwk.try_okp_params().unwrap().x.clone(), sg)
+  };
+  let (r_x, r_y, r_x2, r_y2, r_sig) = {
+    use p256::ecdsa::signature::Signer;
+    let mk = |seed: u8| {
+      let sk = p256::ecdsa::SigningKey::from_slice(&[seed; 32]).unwrap();
+      let pt = sk.verifying_key().to_encoded_point(false);
+      (sk, b64(pt.x().unwrap()), b64(pt.y().unwrap()))
+    };
+    let (sk, x, y) = mk(7);
+    let (_, x2, y2) = mk(9);
+    let sg: p256::ecdsa::Signature = sk.sign(VFY_MSG);
+    (x, y, x2, y2, sg.to_bytes().to_vec())
+  };
+  let (k_x, k_y, k_x2, k_y2, k_sig) = {
+    use k256::ecdsa::signature::Signer;
+    let mk = |seed: u8| {
+      let sk = k256::ecdsa::SigningKey::from_slice(&[seed; 32]).unwrap();
+      let pt = sk.verifying_key().to_encoded_point(false);
+      (sk, b64(pt.x().unwrap()), b64(pt.y().unwrap()))
+    };
+    let (sk, x, y) = mk(7);
+    let (_, x2, y2) = mk(9);
+    let sg: k256::ecdsa::Signature = sk.sign(VFY_MSG);
+    (x, y, x2, y2, sg.to_bytes().to_vec())
+  };
+  // a coordinate in each of the forms: own, another key's, one byte short / long, not base64url, empty
+  let forms = |own: &str, other: &str| -> Vec<(&'static str, String)> {
+    let raw = vfy_b64dec(own).unwrap();
+    let mut long = raw.clone();
+    long.push(0);
+    vec![("own", own.to_string()), ("other", other.to_string()), ("short", b64(&raw[..31])), ("long", b64(&long)), ("bad", format!("{}*", &own[..10])), ("empty", String::new())]
+  };
+  let sigs = |s: &[u8]| -> Vec<Vec<u8>> {
+    let mut flip = s.to_vec();
+    flip[5] ^= 4;
+    let mut long = s.to_vec();
+    long.push(0);
+    vec![s.to_vec(), flip, s[..63].to_vec(), long, vec![]]
+  };
+  let algs = ["EdDSA", "ES256", "ES256K", "ES384", "HS256", "none"];
+  let mut emit = |d: &str, alg: &str, key_json: &str, sig: &[u8], ed_point: bool, ed_sig_ok: bool| {
+    let Some((kty, crv, x, y)) = vfy_abstract(key_json) else { return };
+    let (p, s) = vfy_facts(key_json, sig, ed_point, ed_sig_ok);
+    let j = |v: &[&str]| if v.is_empty() { "~".to_string() } else { v.join(",") };
+    writeln!(out, "C01 vfy d={} alg={} kty={} crv={} x={} y={} sl={} P={} S={} K={} G={}", d, alg, kty, crv, x, y, sig.len(), j(&p), j(&s), hex(key_json.as_bytes()), if sig.is_empty() { "-".to_string() } else { hex(sig) }).unwrap();
+  };
+  // OKP keys: every crv string x every form of x x every signature form, through both dispatchers, under every algorithm name
+  for (ci, crv) in ["Ed25519", "Ed448", "X25519", "X448", "ed25519", "ED25519", "", "P-256", "secp256k1", "Ed25519 "].iter().enumerate() {
+    for (xi, (xf, x)) in forms(&ed_x, &ed_x2).iter().enumerate() {
+      for (si, sig) in sigs(&ed_sig).iter().enumerate() {
+        for (ai, alg) in algs.iter().enumerate() {
+          for d in ["ed", "ec"] {
+            // quick: the full grid for the dispatcher's own algorithm, a third of the rest
+            if !(thorough || (*alg == "EdDSA" && d == "ed") || (ci + xi + si + ai) % 3 == 0) {
+              continue;
+            }
+            let key = format!(r#"{{"kty":"OKP","crv":{},"x":"{}"}}"#, serde_json::to_string(crv).unwrap(), x);
+            emit(d, alg, &key, sig, *xf == "own" || *xf == "other", *xf == "own" && si == 0);
+          }
+        }
+      }
+    }
+  }
+  // EC keys of both curves: every crv string x forms of x and y x signature forms
+  for (fam, x0, y0, x1, y1, sig0) in [("P-256", &r_x, &r_y, &r_x2, &r_y2, &r_sig), ("secp256k1", &k_x, &k_y, &k_x2, &k_y2, &k_sig)] {
+    for (ci, crv) in [fam, if fam == "P-256" { "secp256k1" } else { "P-256" }, "P-384", "Ed25519", "", "p-256"].iter().enumerate() {
+      for (xi, (_, x)) in forms(x0, x1).iter().enumerate() {
+        for (yi, (_, y)) in forms(y0, y1).iter().enumerate() {
+          for (si, sig) in sigs(sig0).iter().enumerate() {
+            for (ai, alg) in algs.iter().enumerate() {
+              for d in ["ec", "ed"] {
+                let own_alg = (*alg == "ES256" || *alg == "ES256K") && d == "ec";
+                if !(thorough || (own_alg && (ci + xi + yi + si) % 2 == 0) || (ci + xi + yi + si + ai) % 11 == 0) {
+                  continue;
+                }
+                let key = format!(r#"{{"kty":"EC","crv":{},"x":"{}","y":"{}"}}"#, serde_json::to_string(crv).unwrap(), x, y);
+                emit(d, alg, &key, sig, false, false);
+              }
+            }
+          }
+        }
+      }
+    }
+  }
+  // keys of the other families
+  for key in [r#"{"kty":"RSA","n":"AQAB","e":"AQAB"}"#, r#"{"kty":"oct","k":"AQAB"}"#] {
+    for alg in algs {
+      for d in ["ed", "ec"] {
+        emit(d, alg, key, &ed_sig, false, false);
+      }
+    }
+  }
+}
+
 pub fn run(args: &[&str]) -> String {
+  if args.first().copied() == Some("vfy") {
+    return vfy_run(&args[1..]);
+  }
   if let [Some("real"), Some(alg), Some(v)] = [args.first().copied(), args.get(1).copied(), args.get(2).copied()] {
     if args.len() == 3 {
       return real(alg, v);
@@ -543,6 +750,7 @@ pub fn gen(thorough: bool, seed: u64, out: &mut impl Write) {
       writeln!(out, "C01 real {} der", alg).unwrap();
     }
   }
+  vfy_gen(thorough, out);
   let prot_specs = [
     "H:EdDSA:-:-:-:-",
     "H:EdDSA:t:b64:-:-",
